@@ -603,31 +603,25 @@ theorem clampedStateDiff_affine_exact (L : List (ℝ × ℝ)) (x h : ℝ) (hh : 
   · simp only [clampedStateDiff, two_real]
     exact diff_affAt L _ _ (2 * h) (by simpa using hh) (by ring)
 
-/-- `clampedDiff` (rows of D: sensors w.r.t. control) is exact on affine maps in forward and backward mode.
-PARTIAL: the centred mode is NOT exact as coded — see `clampedDiff_centered_negated`. -/
-theorem clampedDiff_affine_exact_partial (L : List (ℝ × ℝ)) (x h : ℝ) (hh : h ≠ 0) :
+/-- `clampedDiff` (rows of D: sensors w.r.t. control) is exact on affine maps in all three modes: forward, backward
+and centred (`diff(dx, x_minus, x_plus, 2*h, nx)`).  Before /repo commit 8c58e7e22 the centred branch had its arguments
+swapped and returned the negated slopes; the oracle keeps probing for that (key `c25:transitionFD:D-centered-sign`). -/
+theorem clampedDiff_affine_exact (L : List (ℝ × ℝ)) (x h : ℝ) (hh : h ≠ 0) :
     clampedDiff (affAt L x) (some (affAt L (x + h))) none h = L.map Prod.fst ∧
-    clampedDiff (affAt L x) none (some (affAt L (x - h))) h = L.map Prod.fst :=
-  ⟨diff_affAt L _ _ h hh (by ring), diff_affAt L _ _ h hh (by ring)⟩
+    clampedDiff (affAt L x) none (some (affAt L (x - h))) h = L.map Prod.fst ∧
+    clampedDiff (affAt L x) (some (affAt L (x + h))) (some (affAt L (x - h))) h = L.map Prod.fst := by
+  refine ⟨diff_affAt L _ _ h hh (by ring), diff_affAt L _ _ h hh (by ring), ?_⟩
+  simp only [clampedDiff, two_real]
+  exact diff_affAt L _ _ (2 * h) (by simpa using hh) (by ring)
 
-/-- **defect of the code as written**: the centred branch of `clampedDiff` calls `diff(dx, x_plus, x_minus, 2*h, nx)`,
-i.e. `(x_minus − x_plus)/(2h)`: on affine maps it returns the NEGATED slopes (so it is exact only for slope 0).
-`mjd_transitionFD(..., flg_centered = 1, ...)` therefore returns `D = ∂sensor/∂ctrl` with the wrong sign for every
-control that can be nudged in both directions (oracle key `c25:transitionFD:D-centered-sign`). -/
-theorem clampedDiff_centered_negated (L : List (ℝ × ℝ)) (x h : ℝ) (hh : h ≠ 0) :
-    clampedDiff (affAt L x) (some (affAt L (x + h))) (some (affAt L (x - h))) h = L.map fun p => -p.1 := by
-  simp only [clampedDiff, two_real, diff_real]
-  induction L with
-  | nil => rfl
-  | cons p ps ih =>
-    simp only [affAt, List.map_cons, List.zipWith_cons_cons] at ih ⊢
-    rw [ih]
-    congr 1
-    have : p.1 * (x - h) + p.2 - (p.1 * (x + h) + p.2) = -(p.1 * (2 * h)) := by ring
-    rw [this]; field_simp
-
-example : clampedDiff (affAt [(3, 1)] 0) (some (affAt [(3, 1)] 1)) (some (affAt [(3, 1)] (-1))) 1 = [-3] := by
-  have := clampedDiff_centered_negated [(3, 1)] 0 1 one_ne_zero
+example : clampedDiff (affAt [(3, 1)] 0) (some (affAt [(3, 1)] 1)) (some (affAt [(3, 1)] (-1))) 1 = [3] := by
+  have := (clampedDiff_affine_exact [(3, 1)] 0 1 one_ne_zero).2.2
   simpa using this
+
+/-- the sensor rows and the state rows are differenced the same way: `clampedDiff` and `clampedStateDiff` (on plain
+vectors) are the same function -/
+theorem clampedDiff_eq_clampedStateDiff (x : List ℝ) (p m : Option (List ℝ)) (h : ℝ) :
+    clampedDiff x p m h = clampedStateDiff x p m h := by
+  cases p <;> cases m <;> rfl
 
 end MjProof.C25
